@@ -20,6 +20,7 @@ RULE = ("(merge) datasets of 2..40 generated floats (families: plain, constant, 
         "Non-trivial = >= 2 draws and num_chains not dividing num_samples, or num_chains = 1.")
 RULE_EXT = ('Extended as built: float32 user chains, 257-300 chains, composite observables over a shared view, value continuity between draws, default burn_in, Observable.sample under an identical torch seed, System.statistics_from_samples vs each observable alone. Round 6: statistics results returned earlier by the same System / observable object unchanged after later calls; merge data exactly 0 or >= 1e-100.')
 RULE_EXT += ' Round 10 (after an exception / long time axis): an earlier statistics call on the SAME System / observable object aborted (after one complete draw) by an exception from an observable; composites of 10-15 nested sums that differ in the outermost term only, evaluated together.'
+RULE_EXT += ' Round 11 (re-entrant use / feature interactions): a user observable whose apply() takes statistics of another observable on another state and of the batch it was handed; a composite of SigmaZ(absolute=True) next to the plain SigmaZ in one System.'
 RULE = RULE + " " + RULE_EXT
 ASSUMPTIONS = ["(merge) data values are exactly 0 or >= 1e-100 in magnitude (no variances in the denormal range)", "total drawn count >= 2 (the unbiased variance of a single value is undefined)", "rtol 1e-9 + atol 1e-12*scale^2 on variances"]
 
